@@ -773,6 +773,16 @@ func (prog *Program) genSynth(p0 *packages.Package) (string, error) {
 					}
 				}
 			}
+			if withResults && !have["returnIndex"] {
+				// returnIndex: which return statement (source order, as in `assert after return#k`) this exit is; the
+				// closing brace of a function without results counts as one more
+				for _, fi := range freeIdents(e) {
+					if fi == "returnIndex" && !have[fi] {
+						params = append(params, "returnIndex int")
+						have[fi] = true
+					}
+				}
+			}
 			if len(at) > 0 {
 				pos := at[0]
 				scope := p0.Types.Scope().Innermost(pos)
